@@ -34,9 +34,26 @@ from .resolve import Resolver
 STDLIB_RAISES = {
     # expat: "unknown encoding: <name>" for the encoding named in the XML
     # declaration is a LookupError, not a SAXParseException; a non-bytes
-    # argument is a TypeError
-    'xml.sax.parseString': ('SAXParseException', 'LookupError', 'TypeError'),
+    # argument is a TypeError; a *known* multi-byte encoding (shift_jis,
+    # big5, euc_jp, cp932 ...) makes pyexpat's unknown-encoding handler
+    # raise ValueError("multi-byte encodings are not supported")
+    'xml.sax.parseString': ('SAXParseException', 'LookupError', 'TypeError',
+                            'ValueError'),
+    # requests follows redirects itself (Session.resolve_redirects) and
+    # parses each Location header with urllib.parse.urlparse() unguarded:
+    # `Location: http://[::1` gives ValueError('Invalid IPv6 URL'), which is
+    # not a RequestException.  (A key starting with '*' matches the last
+    # two components of the called name, whatever the receiver is called.)
+    '*.session.post': ('RequestException', 'ValueError'),
 }
+
+
+def stdlib_raises(d_):
+    out = tuple(STDLIB_RAISES.get(d_, ()))
+    parts = d_.split('.')
+    if len(parts) >= 3:
+        out += tuple(STDLIB_RAISES.get('*.' + '.'.join(parts[-2:]), ()))
+    return out
 
 
 class Esc:
@@ -369,6 +386,16 @@ class EscapeAnalysis:
                 if isinstance(e.func, ast.Attribute) and r is not None and \
                         r[0] == 'module' and simple in r[1].functions:
                     return self.returned_exceptions(r[1].functions[simple])
+                if isinstance(e.func, ast.Attribute) and \
+                        d.split('.')[0] in ('self', 'cls') and depth < 3:
+                    # raise self._new_error(...): a method that builds and
+                    # returns the exception
+                    targets, _how = self.res.resolve(e, func)
+                    if targets:
+                        out = []
+                        for t in targets:
+                            out += self.returned_exceptions(t)
+                        return out
                 return [simple]
             return ['Exception']
         if isinstance(e, (ast.Name, ast.Attribute)):
@@ -618,7 +645,7 @@ class EscapeAnalysis:
                             func.qualname, norm(call), call.lineno)
                     _put(out, e)
         d_ = dotted(call.func) or ''
-        for exc_ in STDLIB_RAISES.get(d_, ()):
+        for exc_ in stdlib_raises(d_):
             _put(out, Esc(exc_, 'stdlib', func.file, func.qualname,
                           norm(call), call.lineno))
         if self.call_escapes is not None:
